@@ -37,6 +37,15 @@ CHECKS = {
               'and every admissible and inadmissible binding (rebinding, arity, domain, unmapped label, nonterminal, unknown name) incl. that a '
               'failed call leaves the interpretation unchanged; on FGG and FactorGraph.'),
         design_ref='DESIGN.md §4 C20'),
+    'C08': dict(
+        technique='reference-model monitor (exact/mpmath semiring) over exhaustive pool triples + random triples; representation differential on patterned operands (runtime monitoring)',
+        text=('Runtime monitoring: every semiring operation of the real classes is executed on all triples of boundary-heavy pools (0, subnormals, '
+              '1-eps, 1, 1+eps, huge, max, inf; -inf..inf for the log carriers; both booleans; float32 and float64) and on random triples, and judged '
+              '(i) per operation against a reference semiring written from the definitions (bitwise for exact ops, <=8 ulp / <=4 ulp vs mpmath for '
+              'transcendental ones, star against the closed form of the least solution), (ii) per law instance with both sides computed by the library, '
+              'skipping instances whose IEEE reference sides already disagree, (iii) add/mul/sub on random well-typed PatternedTensor operands against '
+              'the same call on dense operands. Exploration level; the pools are exhausted, the carrier is sampled.'),
+        design_ref='DESIGN.md §4 C08'),
 }
 
 NOT_BUILT = {}
